@@ -36,7 +36,7 @@ def mk_refsys(g, base):
 
 def mk_spine_importer(g, cls):
     # import_listener / error_listener of the outer importer are never read by the non-kern import_token bodies
-    return g.new(cls, {'import_listener': None, 'error_listener': None}, ())
+    return g.new(cls, {}, ())      # the object a caller gets from cls(): the current constructor runs (symbolically too)
 
 
 from pyvc.ghost import conj, disj, implies
